@@ -253,7 +253,13 @@ fn write_container(rt: &tokio::runtime::Runtime, cont: Cont, dir: &Path, name: &
 // ---------------------------------------------------------------------------------------------
 // C05
 
+/// the one coordinate at which the directory and tar sources hold a zero-length tile
+const EMPTY_TILE: Key = (3, 5, 5);
+
 fn content_of(k: Key) -> Vec<u8> {
+	if k == EMPTY_TILE {
+		return vec![];
+	}
 	let mut v = format!("tile content {}/{}/{} ", k.0, k.1, k.2).into_bytes();
 	let base = v.clone();
 	for _ in 0..20 {
@@ -271,7 +277,7 @@ struct TileSrc {
 
 pub fn c05(ctx: Arc<Ctx>) {
 	ctx.rule(
-		"real `versatiles serve` binary (best and --fast) with 8 sources (versatiles x 3 stored compressions x {pbf,png}, mbtiles, pmtiles); requests: Accept-Encoding absent + all 32 subsets of {gzip,br,deflate,identity,zstd} + all 20 ordered pairs, x case {lower,UPPER,Mixed} x weights {none,;q=1,;q=0.5} on a stored and an absent coordinate (thorough: every ordered arrangement of every subset = 326 lists x 3 cases x weights {none,;q=1,;q=0.5,;q=0.001,; q=1.0,mixed per token} x separators {', ', ',', ' ,<tab>'}); \
+		"real `versatiles serve` binary (best and --fast) with 12 sources (versatiles x 3 stored compressions x {pbf,png}, mbtiles, pmtiles, two PMTiles archives with leaf directories (2 and 3 entries per leaf) from the independent encoder, a directory and a tar source that also hold a zero-length tile); requests: Accept-Encoding absent + all 32 subsets of {gzip,br,deflate,identity,zstd} + all 20 ordered pairs, x case {lower,UPPER,Mixed} x weights {none,;q=1,;q=0.5} on a stored and an absent coordinate (thorough: every ordered arrangement of every subset = 326 lists x 3 cases x weights {none,;q=1,;q=0.5,;q=0.001,; q=1.0,mixed per token} x separators {', ', ',', ' ,<tab>'}); \
 		 coordinate classes (stored, absent in range, x or y = 2^z, 2^32-1, z stored/absent/31/32/255/256, non-numeric parts, empty parts) x extension {none,.png,.pbf,.x} with 3 Accept-Encoding values; every request twice (cold/warm). raw HTTP/1.1 client over keep-alive connections. \
 		 non-trivial = distinct 200 responses whose Content-Encoding differs from the stored compression",
 	);
@@ -300,6 +306,29 @@ pub fn c05(ctx: Arc<Ctx>) {
 	}
 	add("mb", Cont::Mbtiles, TileFormat::PBF, 1, &mut srcs, &mut args);
 	add("pm", Cont::Pmtiles, TileFormat::PNG, 0, &mut srcs, &mut args);
+	// a PMTiles archive with leaf directories (other writers use them from a few thousand tiles on): independent encoder
+	{
+		let tiles: TileMap = stored.iter().map(|k| (*k, content_of(*k))).collect();
+		for leaf_size in [2usize, 3] {
+			let l = codec::PmLayout { internal_gzip: true, run_lengths: false, share_offsets: false, leaf_levels: 1, leaf_size, clustered: true, data_reversed: false };
+			let id = format!("pmleaf{leaf_size}");
+			std::fs::write(work.0.join(format!("{id}.pmtiles")), codec::pm_encode(&tiles, 2, 1, br#"{"name":"n"}"#, l)).unwrap();
+			args.push(format!("[{id}]{id}.pmtiles"));
+			srcs.push(TileSrc { id, format: TileFormat::PNG, tiles: stored.clone(), kind: "pmtiles" });
+		}
+	}
+	// a directory and a tar source that also hold a zero-length tile (a source holds it: lookups return it)
+	{
+		let mut with_empty = stored.clone();
+		with_empty.push(EMPTY_TILE);
+		let files: Vec<(String, Vec<u8>)> = with_empty.iter().map(|k| (format!("{}/{}/{}.png", k.0, k.1, k.2), content_of(*k))).collect();
+		codec::dir_write(&work.0.join("dirsrc"), &files).unwrap();
+		std::fs::write(work.0.join("tarsrc.tar"), codec::tar_write(&files, codec::TarLayout { dot_prefix: false, dir_entries: false, gnu: false, reversed: false, meta_last: false })).unwrap();
+		args.push("[dirsrc]dirsrc".into());
+		args.push("[tarsrc]tarsrc.tar".into());
+		srcs.push(TileSrc { id: "dirsrc".into(), format: TileFormat::PNG, tiles: with_empty.clone(), kind: "directory" });
+		srcs.push(TileSrc { id: "tarsrc".into(), format: TileFormat::PNG, tiles: with_empty, kind: "tar" });
+	}
 	// a source whose tiles are gzip data but which is labelled uncompressed: served with --override-input-compression gzip
 	let ovr_file = {
 		let tiles: TileMap = stored.iter().map(|k| (*k, codec::encode_with(1, &content_of(*k)))).collect();
@@ -473,6 +502,12 @@ pub fn c05(ctx: Arc<Ctx>) {
 							}
 						}
 					}
+				}
+			}
+			// 1b. a zero-length tile that the source holds
+			if s.tiles.contains(&EMPTY_TILE) {
+				for ae in [None, Some("gzip"), Some("br"), Some("identity"), Some("br, gzip"), Some("zstd")] {
+					judge(&format!("/tiles/{}/{}", s.id, tf(EMPTY_TILE)), ae.map(|a| a.to_string()), Some(EMPTY_TILE), true, false);
 				}
 			}
 			// 2. coordinate classes x extension
